@@ -710,8 +710,11 @@ class ReactionSystem(object):
 
         if keys is None:
             keys = self.substances.keys()
+        keys = list(keys)
         # dtype: see https://github.com/sympy/sympy/issues/10295
-        return np.array([(getattr(eq, attr)(keys)) for eq in self.rxns], dtype=object)
+        return np.array(
+            [(getattr(eq, attr)(keys)) for eq in self.rxns], dtype=object
+        ).reshape(len(self.rxns), len(keys))
 
     def net_stoichs(self, keys=None):
         return self._stoichs("net_stoich", keys)
